@@ -293,6 +293,14 @@ def c19_wrappers(ctx, prog, cprog):
         cats = [x.get("callee") for x in walk_nodes(rs) if x["k"] == "CallExpr"]
         if len(neg) == 1 and source_name(neg[0]["c"][0]) == "r" and "system_category" in cats:
             generic_default = True
+    # a table of (C error, std::errc) pairs, whatever drives it (if-chain above, or an array of structs)
+    for il in F.walk():
+        if il["k"] == "InitListExpr" and len(il.get("c", [])) == 2:
+            a0, b0 = cstrip(il["c"][0]), cstrip(il["c"][1])
+            cn = [y for y in walk_nodes(a0) if y["k"] == "DeclRefExpr" and y["name"].startswith("REPROC_E")]
+            en = [y for y in walk_nodes(b0) if y["k"] == "DeclRefExpr" and y.get("dk") == "enum"]
+            if cn and en:
+                specials.append((cn[0]["name"], en[0]["name"], en[0]["val"], []))
     ctx.ob("C19.F4e", "error_code_from: r >= 0", "non-negative results become success (an empty error code)", ok_nonneg, None)
     ctx.ob("C19.F4e", "error_code_from: r < 0", "a negative result becomes the error code -r in the system category", generic_default, None)
     for cname, ename, eval_, cats in specials:
